@@ -36,7 +36,7 @@ theorem mutate_safe (c : Cmd) (t nt : Task) (m nm : Meta) (h : mutate c t m = .o
       · exfalso
         simp [abortTransitionOk, hp3, ltAbortPhase, ltPhase, isLTKind] at hab hlt
         rcases hlt with hlt | hlt <;> simp_all
-      · apply abortable_of_fields t _ (by simp [clearTaskProof]) (by simp [clearTaskProof]) (by simp [clearTaskProof]; exact hsame) hab
+      · apply abortable_of_fields t _ (by simp [clearTaskProof]) (by simp [clearTaskProof]) (by simp; exact hsame) hab
     · split at htr
       · rename_i hnl hk2
         simp at htr
@@ -44,7 +44,7 @@ theorem mutate_safe (c : Cmd) (t nt : Task) (m nm : Meta) (h : mutate c t m = .o
         · exfalso
           simp at hk2 hnl
           simp [abortTransitionOk, hp22, hk2, rrAbortPhase, ltPhase] at hab
-        · apply abortable_of_fields t _ (by simp [clearTaskProof]) (by simp [clearTaskProof]) (by simp [clearTaskProof]; exact hsame) hab
+        · apply abortable_of_fields t _ (by simp [clearTaskProof]) (by simp [clearTaskProof]) (by simp; exact hsame) hab
       · cases htr
   · rename_i hk; exact absurd hk hr1
   · -- commit
@@ -84,7 +84,7 @@ theorem mutate_safe (c : Cmd) (t nt : Task) (m nm : Meta) (h : mutate c t m = .o
       have : c.st = 4 := hc4.1.1
       split <;> simp [Task.abortable, Task.terminal, clearTaskFenceAndProof, clearTaskProof, this]
     · simp at htr
-      exact absurd ⟨hk, htr.1.1.2.1⟩ hr2
+      exact absurd ⟨hk, by omega⟩ hr2
   · -- abort needs an abortable row
     unfold mutAbort at h
     split at h; · simp at h
